@@ -2268,34 +2268,42 @@ fn usefulness(patterns: Vec<PatternStack>, q: PatternStack, defs: &Defs) -> Vec<
                                 meta,
                             ),
                         ),
+                        // The first columns of the witness are the fields of the constructor, the
+                        // remaining ones belong to the rest of the row and must be kept
                         Ctor::Tuple(fields) => {
-                            witness = vec![Pattern::typed(
+                            let rest = witness.split_off(fields.len());
+                            let tuple = Pattern::typed(
                                 PatternEnum::Tuple(witness),
                                 Type::Tuple(fields.clone()),
                                 meta,
-                            )]
+                            );
+                            witness = std::iter::once(tuple).chain(rest).collect();
                         }
                         Ctor::Struct(struct_name, fields) => {
+                            let rest = witness.split_off(fields.len());
                             let witness_fields: Vec<_> = fields
                                 .iter()
                                 .zip(witness.into_iter())
                                 .map(|((field_name, _), pattern)| (field_name.clone(), pattern))
                                 .collect();
-                            witness = vec![Pattern::typed(
+                            let strukt = Pattern::typed(
                                 PatternEnum::Struct(struct_name.clone(), witness_fields),
                                 Type::Struct(struct_name.clone()),
                                 meta,
-                            )]
+                            );
+                            witness = std::iter::once(strukt).chain(rest).collect();
                         }
-                        Ctor::Variant(enum_name, variant_name, None) => {
-                            witness = vec![Pattern::typed(
+                        Ctor::Variant(enum_name, variant_name, None) => witness.insert(
+                            0,
+                            Pattern::typed(
                                 PatternEnum::EnumUnit(enum_name.clone(), variant_name.clone()),
                                 Type::Enum(enum_name.clone()),
                                 meta,
-                            )]
-                        }
-                        Ctor::Variant(enum_name, variant_name, Some(_)) => {
-                            witness = vec![Pattern::typed(
+                            ),
+                        ),
+                        Ctor::Variant(enum_name, variant_name, Some(fields)) => {
+                            let rest = witness.split_off(fields.len());
+                            let variant = Pattern::typed(
                                 PatternEnum::EnumTuple(
                                     enum_name.clone(),
                                     variant_name.clone(),
@@ -2303,7 +2311,8 @@ fn usefulness(patterns: Vec<PatternStack>, q: PatternStack, defs: &Defs) -> Vec<
                                 ),
                                 Type::Enum(enum_name.clone()),
                                 meta,
-                            )]
+                            );
+                            witness = std::iter::once(variant).chain(rest).collect();
                         }
                         Ctor::Array(elem_ty, size) => witness.insert(
                             0,
